@@ -5,6 +5,7 @@ import lib
 from lib import fields
 import pk
 import frames as FR
+import props
 from props import (register, Base, DecBase, hist, both_pools, frame_pool, frame_info, driver_run, enc_bytes,
                    random_schedule, utf8_ok)
 
@@ -122,8 +123,8 @@ def atoms_of(b, cuts, pends):
 @register
 class C05(Base):
     id = 'C05'
-    ops = ['sched']
-    rule = ('G-sched: for every valid packet of <= 9 bytes of every type (both families): every composition of the stream '
+    ops = ['sched', 'schedi']
+    rule = ('G-sched: for every valid packet of <= 8 bytes (thorough: <= 11) of every type (both families): every composition of the stream '
             'into chunks x Pending placed nowhere / before every read / at random; for longer packets (2-4 byte headers, '
             'property sections, payloads) and for malformed streams (corruptions, fault-catalogue frames, truncations, '
             'trailing bytes): random schedules; transports ending in EOF or an I/O error. The harness drops and re-creates '
@@ -173,7 +174,7 @@ class C05(Base):
                         k = rng.randint(1, 6)
                         cuts = sorted(rng.sample(range(1, len(v)), min(k, len(v) - 1)))
                         at = atoms_of(v, cuts, [] if huge else [0] + [c for c in cuts if rng.random() < 0.5])
-                    c = 'sched %s %s %s' % (fam, at, tail)
+                    c = '%s %s %s %s' % (rng.choice(['sched', 'sched', 'schedi']), fam, at, tail)
                     cs.append(c)
                     if tag == 'mut':
                         self.loose.add(c)
@@ -182,7 +183,9 @@ class C05(Base):
         return cs, dist
 
     def add(self, cs, fam, b, cuts, pends, tail, dist, tag):
-        cs.append('sched %s %s %s' % (fam, atoms_of(b, cuts, pends), tail))
+        # every third schedule goes through the transport that fills the window by initialize_unfilled() + advance()
+        self.n_add = getattr(self, 'n_add', 0) + 1
+        cs.append('%s %s %s %s' % ('schedi' if self.n_add % 3 == 0 else 'sched', fam, atoms_of(b, cuts, pends), tail))
         hist(dist, tag)
         self.want_ref(cs, fam, b, tail)
 
@@ -510,12 +513,15 @@ class C13(Base):
         if f.get('wrong') != want:
             return ('the other family\'s decode_with_protocol entry point, given the protocol found, returns %s, expected %s'
                     % (f.get('wrong', '')[:100], want))
+        if f.get('presume') != 'ok %s %s' % (src, pk.tok(src, p)):
+            return ('after the poll decoder refused, the body it retained in the caller-owned state resumes to %s, not the '
+                    'original CONNECT' % f.get('presume', '')[:120])
         return None
 
     def project(self, case, line):
         f = fields(line)
         if case.startswith('cross'):
-            return ';'.join('%s=%s' % (k, f.get(k, '')) for k in ('block', 'async', 'poll', 'resume', 'rused', 'wrong'))
+            return ';'.join('%s=%s' % (k, f.get(k, '')) for k in ('block', 'async', 'poll', 'resume', 'rused', 'wrong', 'presume'))
         if case.startswith('dec'):
             return ';'.join('%s=%s' % (k, f.get(k, '')) for k in ('block', 'async', 'poll'))
         return line
@@ -680,7 +686,7 @@ class C14(Base):
 @register
 class C20(Base):
     id = 'C20'
-    ops = ['dec']
+    ops = ['dec', 'stream', 'sched']
     rule = ('G-fault: the C20 catalogue (gen/frames.py: illegal flags, type 0/15, body on an empty packet, pid 0, QoS 3, bad '
             'return/reason codes, CONNACK flags, reserved connect bits, will QoS without will, subscription-option bits, '
             'non-UTF-8 in every text field, wildcard topic names and response topics, invalid filters, unknown / duplicated / '
@@ -712,6 +718,16 @@ class C20(Base):
                 self.meta[c] = (row, exp)
                 cs.append(c)
                 hist(dist, row)
+                # the classification must not depend on how the transport chunks the frame
+                want = exp.get('all')
+                if want and want.startswith('err ') and len(fb) < 200 and row != 'entry-overruns-frame' and rng.random() < 0.3:
+                    if rng.random() < 0.5:
+                        sc = 'stream %s async %s %d' % (fam, pk.hx(fb), rng.choice([1, 1, 2]))
+                    else:
+                        sc = 'sched %s %s eof' % (fam, props.pend_atoms(fb))
+                    self.meta[sc] = (row, {'chunked': want})
+                    cs.append(sc)
+                    hist(dist, 'chunked:' + row)
         for b, kind, pid_, exp in carrier_matrix():
             c = 'dec v5 ' + pk.hx(b)
             if c not in self.meta:
@@ -726,6 +742,12 @@ class C20(Base):
             return None
         row, exp = m
         f = fields(line)
+        if 'chunked' in exp:
+            got = f.get('res') if case.startswith('sched ') else (f.get('final') if f.get('n') == '0' else 'ok ' + f.get('pkts', ''))
+            if got != exp['chunked']:
+                return ('catalogue row %s: %s decoder over a transport delivering the frame in pieces returns %s, documented: %s'
+                        % (row, 'poll' if case.startswith('sched ') else 'async', str(got)[:120], exp['chunked'][:120]))
+            return None
         for fe in ('block', 'async', 'poll'):
             want = exp.get(fe, exp.get('all'))
             if want is None:
@@ -740,6 +762,10 @@ class C20(Base):
 
     def project(self, case, line):
         f = fields(line)
+        if case.startswith('sched '):
+            return 'res=' + f.get('res', '')
+        if case.startswith('stream '):
+            return ';'.join('%s=%s' % (k, f.get(k, '')) for k in ('n', 'final', 'pkts'))
         return ';'.join('%s=%s' % (k, f.get(k, '')) for k in ('hdr', 'block', 'async', 'poll'))
 
 
@@ -747,7 +773,7 @@ class C20(Base):
 @register
 class C04(Base):
     id = 'C04'
-    ops = ['dec', 'hdr', 'code']
+    ops = ['dec', 'hdr', 'code', 'sched']
     profiles = ('release',)
     rule = ('complete frames (header + exactly the declared body) of both families: grammar-generated valid packets, legal '
             'non-canonical spellings (short forms spelled out, permuted and interleaved properties), the same frames with '
@@ -800,7 +826,14 @@ class C04(Base):
         for b, kind, pid_, exp in carrier_matrix():
             cs.append('dec v5 ' + pk.hx(b))
             hist(dist, 'property-carrier-matrix')
+        # acceptance is a function of the frame, not of how the transport delivers it: one byte per read with a Pending
+        # before every byte (in particular inside the remaining-length field of frames with bodies >= 128 bytes)
+        fr = [(c.split()[1], bytes.fromhex(c.split()[2][1:])) for c in cs if c.startswith('dec ') and len(c) < 2000]
+        props.pend_sched_cases(self, cs, dist, fr, rng, 500 if tier == 'quick' else 8000)
         return cs, dist
+
+    def context(self, cases, act):
+        return {c: lib.normalize(a) for c, a in zip(cases, act) if c.startswith('dec ') and len(c) < 2000}
 
     def spec_phase(self, cases, act, workdir, prof):
         idx = [i for i, c in enumerate(cases) if c.startswith('dec ')]
@@ -839,6 +872,8 @@ class C04(Base):
             if line != want:
                 return 'Header::new_with(%s, %s) = %s, MQTT 2.2 flag table says %s' % (t[2], t[3], line[:80], want)
             return None
+        if t[0] == 'sched':
+            return props.judge_pend_sched(self, case, line, ctx)
         if spec is None:
             return None
         s, l = spec
@@ -864,7 +899,7 @@ class C04(Base):
         if case.startswith('hdr') or case.startswith('code'):
             return line
         f = fields(line)
-        pol = f.get('poll', '')
+        pol = f.get('res', '') if case.startswith('sched ') else f.get('poll', '')
         return 'poll=' + (pol if pol.startswith('ok ') else pol.split(' ')[0])
 
     def nontrivial(self, case, line):
